@@ -24,7 +24,16 @@ def patched(*triples):
 
 
 class OptRes(dict):
-    __getattr__ = dict.get
+    """scipy OptimizeResult stand-in: the fields a stub fills in are its contract; asking for any other field of the real
+    result object is recorded as a stub gap (harness error), never answered with None"""
+
+    def __getattr__(self, name):
+        if name in self:
+            return self[name]
+        if name.startswith('__'):
+            raise AttributeError(name)
+        symx.STUB_GAPS.append(f'OptimizeResult.{name}')
+        raise AttributeError(f'the optimiser stub does not model OptimizeResult.{name}')
 
 
 def _sym_like(h, name, x0):
